@@ -124,6 +124,45 @@ theorem inv_ofList (pairs : List (K × V)) : Inv (M.ofList pairs) := by
           | some _ => simp [h'] at hs
         simp [M.live, akeys_aput_new p.1 p.2 m.data hn, hs, hk]
 
+/-! ### refinement over whole histories -/
+
+/-- the specification: a Go map as a function, one step per operation -/
+def specStep (f : K → Option V) : Op K V → (K → Option V)
+  | .set k v => fun k' => if k' = k then some v else f k'
+  | .del k _ => fun k' => if k' = k then none else f k'
+
+/-- **history_refines.** After any history of sets and deletes (every delete compacting to whatever
+    order of the live keys), lookup of every key is what the finite-map specification gives. -/
+theorem history_refines (m : M K V) (h : Inv m) (ops : List (Op K V)) (hv : Valid m ops) (k : K) :
+    (ops.foldl apply m).get k = (ops.foldl specStep m.get) k := by
+  induction ops generalizing m with
+  | nil => rfl
+  | cons op ops ih =>
+    cases op with
+    | set k1 v =>
+      simp only [List.foldl_cons, apply, specStep]
+      rw [ih _ (inv_set m k1 v h) hv]
+      have e : (m.set k1 v).get = fun k' => if k' = k1 then some v else m.get k' :=
+        funext fun k' => get_set m k1 k' v
+      rw [e]
+    | del k1 p =>
+      simp only [List.foldl_cons, apply, specStep]
+      rw [ih _ (inv_delete m k1 p h hv.1) hv.2]
+      have e : (m.delete k1 p).get = fun k' => if k' = k1 then none else m.get k' :=
+        funext fun k' => get_delete m h k1 k' p
+      rw [e]
+
+/-- and `len` is the number of keys the specification maps to a value, counted over any list of
+    candidate keys without duplicates that covers the live ones -/
+theorem len_refines (m : M K V) (h : Inv m) (ops : List (Op K V)) (hv : Valid m ops) :
+    let m' := ops.foldl apply m
+    m'.len = m'.live.length ∧ ∀ k, k ∈ m'.live ↔ ((ops.foldl specStep m.get) k).isSome := by
+  intro m'
+  have hi := inv_history m h ops hv
+  obtain ⟨h1, _, h3⟩ := len_counts m' hi
+  refine ⟨h1, fun k => ?_⟩
+  rw [h3 k, history_refines m h ops hv k]
+
 /-! ### the range contract, for every interleaving of iteration with mutation -/
 
 /-- (1) a visit yields a key that is live at that moment, with its current value; the keys skipped
@@ -265,3 +304,5 @@ end Goat.Props.C10
 #print axioms Goat.Props.C10.visits_nodup
 #print axioms Goat.Props.C10.visits_complete
 #print axioms Goat.Props.C10.range_contract
+#print axioms Goat.Props.C10.history_refines
+#print axioms Goat.Props.C10.len_refines
